@@ -5,7 +5,6 @@ use std::cell::RefCell;
 
 use winter_crypto::{DefaultRandomCoin, Digest, ElementHasher, Hasher, RandomCoin, RandomCoinError};
 use winter_math::{FieldElement, StarkField};
-use winter_utils::Serializable;
 
 use crate::fields::Fld;
 
